@@ -86,7 +86,11 @@ func typeName(t types.Type) string {
 	if n, ok := t.(*types.Named); ok {
 		obj := n.Obj()
 		if obj.Pkg() != nil {
-			return obj.Pkg().Path() + "." + obj.Name()
+			full := obj.Pkg().Path() + "." + obj.Name()
+			if a, ok := load.TypeAlias[full]; ok {
+				return a // a struct type recognised as renamed is seen under the name the rule tables use
+			}
+			return full
 		}
 		return obj.Name()
 	}
